@@ -1,6 +1,6 @@
 SPECIFICATION Spec
-CONSTANT Frames = {0, 1, 32}
-CONSTANT Bad = {32}
+CONSTANT Frames = {0, 1, 512}
+CONSTANT Bad = {512}
 CONSTANT TicksPerMs = 1
 CONSTANT Mutant = "first_meta"
 CONSTANT Ws = {0, 1, 2, 3}
